@@ -41,7 +41,7 @@ type AV struct {
 	Tag  int // other
 	Keys []string
 	Vals []*AV
-	Nil  bool // AVObj at top level: a nil map
+	Nil  bool     // AVObj at top level: a nil map
 	Strs []string // AVOther: when set, the value is this []string (or []interface{} of these strings when Tag is 8): a
 	// multi-valued attribute made from the elements of a list literal (for the model still "other")
 }
